@@ -123,7 +123,11 @@ class Ctx:
         return self.time_left() <= 0
 
     def want(self, case_id):
-        return self.only_case is None or jsonable(case_id) == self.only_case
+        if self.only_case is None:
+            return True
+        cid = jsonable(case_id)
+        # a violation may carry a sub-case suffix (cid + [...]): the replay filter accepts the base case it belongs to
+        return cid == self.only_case or (isinstance(cid, list) and isinstance(self.only_case, list) and self.only_case[:len(cid)] == cid)
 
     @contextlib.contextmanager
     def alarm(self, seconds):
